@@ -1731,6 +1731,193 @@ fn round_w1_async(seed: u64, pm: u64) -> Result<(usize, usize), String> {
     Ok((nrec + seen.len(), threads + 1))
 }
 
+/// Many waiting tasks at once: a few poller threads multiplex dozens of subscribers, each polled with its own
+/// waker (more than 32 and more than 64 wakers registered at the same time), while writer threads store
+/// unique values. Oracle at quiescence (writers joined): a subscriber that is Pending and whose waker was
+/// never woken must have nothing to deliver; afterwards the last owner goes away and every waiter must be
+/// woken and end.
+fn round_many_waiters(seed: u64, pm: u64) -> Result<(usize, usize), String> {
+    install_hook();
+    let mut rng = Rng::new(seed);
+    let writers = rng.range(1, 3);
+    let pollers = rng.range(1, 3);
+    let per_poller = if small() { rng.range(2, 5) } else { rng.range(8, 40) };
+    let ops = if small() { rng.range(2, 5) } else { rng.range(3, 30) };
+    let ob = SharedObservable::new(0u64);
+    let writers_done = Arc::new(Quiesce(AtomicBool::new(false)));
+    let checked = Arc::new(AtomicU64::new(0));
+    let closed = Arc::new(Quiesce(AtomicBool::new(false)));
+    let start = Arc::new(std::sync::Barrier::new(writers + pollers));
+    let mut phs = vec![];
+    for k in 0..pollers {
+        let mut subs: Vec<Subscriber<u64>> = (0..per_poller).map(|_| ob.subscribe()).collect();
+        let done = writers_done.clone();
+        let closed = closed.clone();
+        let checked = checked.clone();
+        let start = start.clone();
+        let sseed = mix(seed, 70 + k as u64);
+        phs.push(std::thread::spawn(move || -> Result<usize, String> {
+            set_free_mode(sseed, pm);
+            let n = subs.len();
+            // per subscriber: flag of its last Pending poll (None = must be polled), ended, last value
+            let mut flags: Vec<Option<Arc<FlagWaker>>> = vec![None; n];
+            let mut ended = vec![false; n];
+            let mut last: Vec<Option<u64>> = vec![None; n];
+            let mut events = 0usize;
+            let mut quiescent_checked = false;
+            let deadline = Instant::now() + Duration::from_secs(20);
+            start.wait();
+            loop {
+                let mut progressed = false;
+                for i in 0..n {
+                    if ended[i] {
+                        continue;
+                    }
+                    let due = match &flags[i] {
+                        None => true,
+                        Some(f) => f.woken(),
+                    };
+                    if !due {
+                        continue;
+                    }
+                    progressed = true;
+                    let (flag, w) = flag_waker_unpark();
+                    let mut cx = Context::from_waker(&w);
+                    events += 1;
+                    match std::pin::Pin::new(&mut subs[i]).poll_next(&mut cx) {
+                        Poll::Ready(Some(v)) => {
+                            if let Some(l) = last[i] {
+                                if l == v {
+                                    return Err(format!("[C02|C04] poller {k}: subscriber {i} was handed the value {v:#x} twice in a row (unique values are stored)"));
+                                }
+                            }
+                            last[i] = Some(v);
+                            flags[i] = None;
+                        }
+                        Poll::Ready(None) => ended[i] = true,
+                        Poll::Pending => flags[i] = Some(flag),
+                    }
+                }
+                if ended.iter().all(|e| *e) {
+                    break;
+                }
+                if progressed {
+                    continue;
+                }
+                // everything is Pending and nothing was woken
+                if done.get() && !quiescent_checked {
+                    // the writers have returned from their last call: whoever is Pending without a wake now has
+                    // nothing to deliver - poll once more with the same expectation
+                    let fin = subs[0].get();
+                    for i in 0..n {
+                        if ended[i] {
+                            continue;
+                        }
+                        let f = flags[i].as_ref().unwrap();
+                        if f.woken() {
+                            continue;
+                        }
+                        let (flag, w) = flag_waker_unpark();
+                        let mut cx = Context::from_waker(&w);
+                        events += 1;
+                        match std::pin::Pin::new(&mut subs[i]).poll_next(&mut cx) {
+                            Poll::Pending => {
+                                flags[i] = Some(flag);
+                                if let Some(l) = last[i] {
+                                    if l != fin {
+                                        return Err(format!("[C04] poller {k}: subscriber {i} is Pending after the writers finished, it was last handed {l:#x} but the final value is {fin:#x}"));
+                                    }
+                                }
+                            }
+                            Poll::Ready(Some(v)) => {
+                                return Err(format!(
+                                    "[C02|C04] poller {k}: subscriber {i} of {n} was Pending, its waker was never woken, yet the value {v:#x} was waiting for it after the writers had finished (lost wakeup)"
+                                ));
+                            }
+                            Poll::Ready(None) => return Err(format!("[C03] poller {k}: subscriber {i} ended while owners exist")),
+                        }
+                    }
+                    quiescent_checked = true;
+                    checked.fetch_add(1, AO::SeqCst);
+                    continue;
+                }
+                if closed.get() {
+                    // every owner is gone (the drop has returned): a Pending waiter must have been woken
+                    for i in 0..n {
+                        if !ended[i] && !flags[i].as_ref().unwrap().woken() {
+                            return Err(format!("[C02|C03|C04] poller {k}: subscriber {i} of {n} was Pending when the last owner went away and its waker was never woken"));
+                        }
+                    }
+                }
+                if Instant::now() > deadline {
+                    return Err("STUCK: many-waiters poller exceeded its wall-clock watchdog".into());
+                }
+                std::thread::park_timeout(Duration::from_millis(1));
+            }
+            clear_mode();
+            Ok(events)
+        }));
+    }
+    let mut whs = vec![];
+    for t in 0..writers {
+        let c = ob.clone();
+        let start = start.clone();
+        let tseed = mix(seed, t as u64 + 1);
+        whs.push(std::thread::spawn(move || {
+            set_free_mode(tseed, pm);
+            let mut rng = Rng::new(tseed);
+            start.wait();
+            for i in 0..ops {
+                let id = ((t as u64 + 1) << 20) | (i as u64 + 1);
+                match rng.below(3) {
+                    0 => {
+                        c.set(id);
+                    }
+                    1 => c.update(|v| *v = id),
+                    _ => {
+                        c.set_if_not_eq(id);
+                    }
+                }
+                if rng.chance(1, 3) {
+                    std::thread::sleep(Duration::from_micros(rng.below(300) as u64));
+                }
+            }
+            clear_mode();
+        }));
+    }
+    for h in whs {
+        h.join().map_err(|_| "a writer thread panicked".to_string())?;
+    }
+    writers_done.set();
+    // wait until every poller has done its quiescence check (bounded), then drop the last owner
+    let t0 = Instant::now();
+    while checked.load(AO::SeqCst) < pollers as u64 && t0.elapsed() < Duration::from_secs(20) {
+        if phs.iter().any(|h| h.is_finished()) {
+            break;
+        }
+        std::thread::sleep(Duration::from_micros(200));
+    }
+    drop(ob);
+    closed.set();
+    let mut events = 0;
+    let mut err = None;
+    for h in phs {
+        match h.join() {
+            Ok(Ok(e)) => events += e,
+            Ok(Err(e)) => {
+                if err.is_none() || !e.starts_with("STUCK") {
+                    err = Some(e)
+                }
+            }
+            Err(_) => err = Some("a poller thread panicked".into()),
+        }
+    }
+    match err {
+        Some(e) => Err(e),
+        None => Ok((events, writers + pollers)),
+    }
+}
+
 // ---------------------------------------------------------------------------------------------
 
 pub fn run_rounds(
@@ -1816,6 +2003,7 @@ pub fn run_c02(p: &Params) -> Outcome {
         out.merge(run_directed("C02", C02_SCENS, p, sched_budget(p, 400, 3000)));
         out.merge(run_free_c02("C02", p, p.n(1_500, 40_000)));
         out.merge(run_rounds("C02", p, "last-drops-at-once", p.n(400, 10_000), round_last_drops));
+        out.merge(run_rounds("C02", p, "many-waiters", p.n(300, 8_000), round_many_waiters));
     }
     out
 }
@@ -1843,6 +2031,7 @@ pub fn run_c04(p: &Params) -> Outcome {
     out.merge(run_rounds("C04", p, "w3-guards", p.n(600, 20_000), round_w3));
     // the async-lock flavour is a SharedObservable, too
     out.merge(run_rounds("C04", p, "w1-register-async", p.n(600, 20_000), round_w1_async));
+    out.merge(run_rounds("C04", p, "many-waiters", p.n(300, 8_000), round_many_waiters));
     out
 }
 
